@@ -171,6 +171,18 @@ def number_error(ctx, case):
         ce = None  # its fixed step left the domain of the expression
     if ce is not None and isinstance(ce.error, float) and math.isfinite(ce.error):
         ctx.check(abs(ce.error - ref_err) <= 1e-4 * (1 + abs(ref_err)), "cal_err", "cal_err error %r vs %r" % (ce.error, ref_err))
+    # some arguments exact (plain numbers), in every position pattern derived from the case
+    mask = int(abs(flat_vals[0]) * 1e6) % (2 ** len(leaves)) if leaves else 0
+    if mask:
+        mixed = [v if (mask >> i) & 1 else l for i, (v, l) in enumerate(zip(flat_vals, leaves))]
+        ref_mixed = math.sqrt(sum((g * e) ** 2 for i, (g, e) in enumerate(zip(grads, flat_errs)) if not (mask >> i) & 1))
+        try:
+            ce = cal_err(f, *mixed)
+        except (ValueError, OverflowError, ZeroDivisionError, TypeError):
+            ce = None
+        if ce is not None and isinstance(ce.error, float) and math.isfinite(ce.error):
+            ctx.check(abs(ce.error - ref_mixed) <= 1e-4 * (1 + abs(ref_mixed)), "cal_err", "cal_err with exact arguments at positions %s: error %r vs %r (expr %s at %s +- %s)" % ([i for i in range(len(leaves)) if (mask >> i) & 1], ce.error, ref_mixed, node, xs, flat_errs))
+            ctx.count("cal_err_mixed_exact_arguments")
 
     def has(kind, n):
         return n[0] == kind or any(has(kind, m) for m in n[1:] if isinstance(m, (list, tuple)))
@@ -412,17 +424,38 @@ def parameter_errors(ctx, case):
     n = len(names)
     if n == 0 or n > 10:
         return {"skip": "no_or_too_many_parameters"}
+    # move to a minimum first (generator only: the errors are compared at whatever point the search stops,
+    # provided the finite-difference Hessian is positive definite there)
+    from tf_pwa.fit import fit_scipy
+
+    try:
+        fit_scipy(fcn, method="BFGS", maxiter=60)
+    except Exception:
+        return {"skip": "generator_fit_failed"}
     x0 = np.array([float(vm.variables[k].numpy()) for k in names])
+    if not np.all(np.isfinite(x0)):
+        return {"skip": "generator_fit_failed"}
     gvec = lambda: np.asarray(fcn.nll_grad({})[1], dtype=float)
-    H = np.zeros((n, n))
-    for i, k in enumerate(names):
-        h = 1e-4 * (1 + abs(x0[i]))
-        vm.variables[k].assign(x0[i] + h)
-        gp = gvec()
-        vm.variables[k].assign(x0[i] - h)
-        gm = gvec()
-        vm.variables[k].assign(x0[i])
-        H[:, i] = (gp - gm) / (2 * h)
+    def fd_hessian(steps):
+        Hx = np.zeros((n, n))
+        for i, k in enumerate(names):
+            h = steps[i]
+            vm.variables[k].assign(x0[i] + h)
+            gp = gvec()
+            vm.variables[k].assign(x0[i] - h)
+            gm = gvec()
+            vm.variables[k].assign(x0[i])
+            Hx[:, i] = (gp - gm) / (2 * h)
+        return Hx
+
+    steps = np.array([1e-4 * (1 + abs(v)) for v in x0])
+    H1 = fd_hessian(steps)
+    # steps small against the curvature scale 1/sqrt(H_ii), then Richardson extrapolation of two step sizes
+    steps = np.minimum(steps, 0.02 / np.sqrt(np.maximum(np.abs(np.diag(H1)), 1e-12)))
+    Ha, Hb = fd_hessian(steps), fd_hessian(steps / 2)
+    H = (4 * Hb - Ha) / 3
+    if np.max(np.abs(Ha - Hb)) > 1e-4 * np.max(np.abs(H)):
+        return {"skip": "finite_difference_hessian_unstable"}
     H = 0.5 * (H + H.T)
     ev = np.linalg.eigvalsh(H)
     if ev.min() <= 1e-6 * max(1.0, ev.max()):
@@ -430,13 +463,33 @@ def parameter_errors(ctx, case):
     ref = np.sqrt(np.diag(np.linalg.inv(H)))
     sets = nc.sets
     all_data = ([s["data"] for s in sets], [s["phsp"] for s in sets], [s["bg"] for s in sets] if any(s["bg"] is not None for s in sets) else None, None)
-    err = nc.config.get_params_error(params={}, data=all_data[0], phsp=all_data[1], bg=all_data[2], batch=65000)
-    got = np.array([float(err[k]) for k in names])
     cond = ev.max() / ev.min()
-    ctx.close(got, ref, "parameter_error", rtol=1e-4 * max(1.0, cond / 1e4), atol=1e-9, what="get_params_error vs sqrt(diag(inv(H_fd))) for %s (cond %.1e)" % (names, cond))
-    inv = np.asarray(nc.config.inv_he)
-    ctx.close(inv, np.linalg.inv(H), "covariance_matrix", rtol=1e-3 * max(1.0, cond / 1e4), atol=1e-7 * float(np.max(np.abs(np.linalg.inv(H)))), what="inverse Hessian")
-    return {"nontrivial": n >= 4, "classes": ["model=" + nc.model, "npar=%d" % n]}
+    Vref = np.linalg.inv(H)
+    point = {k: float(v) for k, v in amp.get_params().items()}
+    cls = ["model=" + nc.model, "npar=%d" % n]
+    for mi, method in enumerate([None, "3-point", "hesse"]):
+        # the point is either the live model state (params={}) or passed explicitly while the model holds other values
+        displaced = (case["seed"] + mi) % 2 == 1
+        if method == "3-point" and float(np.min(ref)) < 0.02:
+            # the routine's own fixed step (5e-4) is not small against the curvature scale: its result is an approximation there
+            ctx.count("3-point_step_not_small_against_error")
+            continue
+        if displaced:
+            for i, k in enumerate(names):
+                vm.variables[k].assign(x0[i] + 0.05 * (1 + (i % 3)))
+            err = nc.config.get_params_error(params=dict(point), data=all_data[0], phsp=all_data[1], bg=all_data[2], batch=65000, method=method)
+        else:
+            err = nc.config.get_params_error(params={}, data=all_data[0], phsp=all_data[1], bg=all_data[2], batch=65000, method=method)
+        got = np.array([float(err[k]) for k in names])
+        loose = 30.0 if method == "3-point" else 1.0
+        what = "method=%s, point %s" % (method, "passed explicitly (model displaced)" if displaced else "= model state")
+        ctx.close(got, ref, "parameter_error", rtol=loose * 1e-4 * max(1.0, cond / 1e4), atol=1e-9, what="get_params_error vs sqrt(diag(inv(H_fd))) for %s (cond %.1e), %s" % (names, cond, what))
+        inv = np.asarray(nc.config.inv_he)
+        ctx.close(inv, Vref, "covariance_matrix", rtol=loose * 1e-3 * max(1.0, cond / 1e4), atol=loose * 1e-7 * float(np.max(np.abs(Vref))), what="inverse Hessian, " + what)
+        amp.set_params(point)
+        cls.append("method=%s" % method)
+        cls.append("displaced" if displaced else "in_place")
+    return {"nontrivial": n >= 4, "classes": cls}
 
 
 def pe_st():
@@ -461,12 +514,12 @@ def run_ff(ctx):
 
 
 def run_pe(ctx):
-    ctx.run_cases(parameter_errors, pe_st(), ctx.n(12, 300))
+    ctx.run_cases(parameter_errors, pe_st(), ctx.n(32, 480))
 
 
 SUBCHECKS = [
     Sub("number_error", run_number, shards=(2, 4), budget=(200, 1800)),
     Sub("params_trans", run_trans, shards=(2, 4), budget=(200, 1800)),
     Sub("fit_fraction_errors", run_ff, shards=(6, 8), budget=(280, 3000), weight=3),
-    Sub("parameter_errors", run_pe, shards=(6, 8), budget=(280, 3000), weight=3),
+    Sub("parameter_errors", run_pe, shards=(8, 8), budget=(280, 3000), weight=3),
 ]
